@@ -99,9 +99,18 @@ def insert : Handler := fun j => do
     | s => throw s!"bad fix {s}"
   let views ← listOf pairOfJson (← field j "views")
   let rt := rootOf views views.length
+  -- "eff": [[op id, [operand values]]...] (repair FC13c; [] = the code as it is)
+  let effL ← match j.getObjVal? "eff" with
+    | .ok e => listOf (fun x => do
+        let a ← arr x
+        match a.toList with
+        | [i, vs] => return ((← nat i), (← listOf nat vs))
+        | _ => throw "bad eff") e
+    | .error _ => pure []
+  let eff : Nat → List Nat := fun i => (effL.lookup i).getD []
   return Json.mkObj [
-    ("out", Json.arr (blkToJsonList (insertBarriers fx rt p)).toArray),
-    ("low", Json.arr (blkToJsonList (lowerB (insertBarriers fx rt p))).toArray),
+    ("out", Json.arr (blkToJsonList (insertBarriers fx rt eff p)).toArray),
+    ("low", Json.arr (blkToJsonList (lowerB (insertBarriers fx rt eff p))).toArray),
     ("nodup", Json.bool (decide (idsB p).Nodup)),
     ("compoundAll", Json.bool (compoundAllB p)),
     ("ssaVisible", Json.bool (ssaVisibleB p)),
